@@ -5,17 +5,26 @@
 // Two modes, selected by the scenario header:
 //   "mode":"seq"   Grain = "call": one real thread, one step = one public call
 //                  (Register(timing,outcome) | Resolve(outcome) | UserResolve)
+//                  "ctx":"coro": the whole scenario runs INSIDE a running coroutine (ready queue active, on a
+//                  fresh thread): callback_await's helper coroutine is only queued by the call and starts /
+//                  resumes at the step Yield (co_await pause()).  "argk" says how callback_await's awaitable
+//                  constructor argument is passed: temporary / lvalue / moved named object; the argument is a
+//                  tracked object whose destruction and moved-from state poison it ("args" in the projection
+//                  counts awaitables built from a poisoned argument).
 //   "mode":"conc"  Grain = "atomic": real threads under the controlled scheduler (vsched): the registering
 //                  thread "a" and the resolver thread(s) "r1","r2"; one step = one atomic operation on the
 //                  awaited future's shared words (Start | Check | Cas | Fence | Claim(r) | Swap(r)) plus
 //                  the thread-local code that follows it; UserResolve is executed by the controller.
+//                  "fine":true: Grain = "fine" (vsched yield_after): the atomic operation (FCheck | FCas |
+//                  FFence | FClaim(r) | FSwap(r)) and the plain code after it (PostCheck | PostCas | PostFence
+//                  | PostClaim(r) | PostSwap(r)) are separate steps.
 //
-// header: {"mode","ad","alloc","cv","reg","tovoid","rk":{r:outcome},"k":variant selector}
+// header: {"mode","fine","ctx","argk","ad","alloc","cv","reg","tovoid","rk":{r:outcome},"k":variant selector}
 //   k selects among equivalent ways of writing the same scenario (how the awaited future is produced:
 //   init lambda / lambda returning a future / already resolved static future / existing future by
 //   reference; a broken promise by p(drop) or by destroying the promise)
 // projection after each step (see tools/checks/c18.py proj()):
-//   {"round","src":{"slot","tag","v"},"calls","got":{"tag","v"},"heap","news","cb","st":{..storage..},
+//   {"round","src":{"slot","armed","tag","v"},"args","calls","got":{"tag","v"},"heap","news","cb","st":{..storage..},
 //    conv only: "prom","outer":{"st","v"},"user";  conc only: "owner","by","pend":{thread:pc},"res":{r:..}}
 #define REPLAY_COUNT_ALLOCS
 #include <cocls/future.h>
@@ -27,6 +36,7 @@
 #include "replay_common.h"
 
 #include <optional>
+#include <thread>
 
 using namespace rp;
 using cocls_verif::vsched;
@@ -69,14 +79,16 @@ struct ThreadAcct {
 
 struct WorldBase {
     // parameters
-    std::string mode, ad, alloc, cv, reg;
-    bool tovoid = false, conc = false;
+    std::string mode, ad, alloc, cv, reg, ctx, argk;
+    bool tovoid = false, conc = false, fine = false;
     long k = 0;
     // driver state
     int round = 0;
     std::string pre = "none";     // outcome to deliver inside the starting function ("before" timing)
     bool use_static = false;      // ... by returning an already resolved future
     bool drop_by_dtor = false;
+    int magic = 0;                // what the arguments passed in this round carry
+    int badargs = 0;              // awaitables built from a destroyed / moved-from / foreign argument
     // what the user's callbacks observed (written without allocating)
     int calls = 0;
     Tag got_tag = T_NONE;
@@ -199,6 +211,18 @@ struct PProbe : cocls::promise<T> {
     static auto owner_mp() { return &PProbe::_owner; }
 };
 
+struct AwProbe : cocls::awaiter {
+    static auto fn_mp() { return &AwProbe::_resume_fn; }
+    static auto h_mp() { return &AwProbe::_handle_addr; }
+    static resume_fn nullfn() { return &AwProbe::null_fn; }
+    // the node can be resumed: a resume function other than the default no-op, or a coroutine handle
+    static bool armed(cocls::awaiter *a) {
+        auto fn = a->*fn_mp();
+        if (fn == nullfn()) return false;
+        return fn != nullptr || a->*h_mp() != nullptr;
+    }
+};
+
 template <typename T>
 static const char *slot_of(cocls::future<T> &f) {
     cocls::awaiter *a = (f.*FProbe<T>::slot_mp()).verif_peek();
@@ -297,12 +321,15 @@ struct World : WorldBase {
         J src = J::map();
         std::string slot = "gone", tag = "none";
         int v = 0;
+        bool armed = false;
         if (helper_alive() && fut) {
             slot = slot_of(*fut);
             stored_of(*fut, tag, v);
+            if (slot == "helper") armed = AwProbe::armed((fut->*FProbe<From>::slot_mp()).verif_peek());
         }
-        src.set("slot", slot); src.set("tag", tag); src.set("v", v);
+        src.set("slot", slot); src.set("armed", armed); src.set("tag", tag); src.set("v", v);
         m.set("src", src);
+        m.set("args", badargs);
         m.set("calls", calls);
         J got = J::map();
         got.set("tag", tag_name(got_tag)); got.set("v", got_v);
@@ -325,14 +352,40 @@ struct World : WorldBase {
     }
 };
 
-// what the adapters pass as "function which starts the operation and returns its future"
+// what the adapters pass as "function which starts the operation and returns its future": an object that
+// carries state (the round's magic number).  Its destructor and its move constructor poison the source
+// object, so an awaitable that is built later from a dangling or moved-from argument is noticed (nothing of
+// the object itself is trusted before the check: the world is reached through g_w).
+struct ArgState {
+    volatile int state;    // 1 alive, 2 moved-from, 3 destroyed
+    volatile int magic;
+    explicit ArgState(int m) : state(1), magic(m) {}
+    ArgState(ArgState &&o) noexcept : state(o.state), magic(o.magic) { o.state = 2; o.magic = -1; }
+    ArgState(const ArgState &o) : state(o.state), magic(o.magic) {}
+    ~ArgState() { state = 3; magic = -2; }
+    void check() const { if (state != 1 || magic != g_w->magic) g_w->badargs++; }
+};
+
 template <typename From>
 struct Factory {
-    World<From> *w;
+    ArgState a;
+    explicit Factory(WorldBase &w) : a(w.magic) {}
     cocls::future<From> operator()() const {
-        if (w->use_static) return w->static_future();
-        World<From> *pw = w;
+        a.check();
+        World<From> *pw = static_cast<World<From> *>(g_w);
+        if (pw->use_static) return pw->static_future();
         return cocls::future<From>([pw](cocls::promise<From> pr) { pw->arm(std::move(pr)); });
+    }
+};
+
+// the awaitable constructed from a function receiving the promise
+template <typename From>
+struct InitFn {
+    ArgState a;
+    explicit InitFn(WorldBase &w) : a(w.magic) {}
+    void operator()(cocls::promise<From> pr) const {
+        a.check();
+        static_cast<World<From> *>(g_w)->arm(std::move(pr));
     }
 };
 
@@ -340,33 +393,42 @@ struct Factory {
 template <typename From>
 struct CbAwaitAdapter : AdapterBase {
     World<From> &w;
+    std::optional<Factory<From>> named[4];   // lvalue arguments: the caller keeps them alive (one per round)
     explicit CbAwaitAdapter(World<From> &w_) : w(w_) {}
+
+    // the call itself, with the argument passed as the scenario says
+    template <typename Arg>
+    void call(Arg &&arg) {
+        using Awt = cocls::future<From>;
+        if (w.alloc == "heap") cocls::callback_await<Awt>(CbFn<From>{Tok(w)}, std::forward<Arg>(arg));
+        else if (w.alloc == "reusable") cocls::callback_await_alloc<cocls::reusable_storage, Awt>(*w.st_reusable, CbFn<From>{Tok(w)}, std::forward<Arg>(arg));
+        else if (w.alloc == "mtsafe") cocls::callback_await_alloc<cocls::reusable_storage_mtsafe, Awt>(*w.st_mt, CbFn<From>{Tok(w)}, std::forward<Arg>(arg));
+        else cocls::callback_await_alloc<CountingStorage, Awt>(*w.st_count, CbFn<From>{Tok(w)}, std::forward<Arg>(arg));
+    }
+
     void reg() override {
         using Awt = cocls::future<From>;
-        Factory<From> fac{&w};
-        World<From> *pw = &w;
         int variant = (int) (w.k % 4);
-        if (w.alloc == "heap") {
-            if (variant == 2 && !w.use_static) {
-                // the awaitable constructed from a function receiving the promise
-                cocls::callback_await<Awt>(CbFn<From>{Tok(w)}, [pw](cocls::promise<From> pr) { pw->arm(std::move(pr)); });
-            } else if (variant == 3 && !w.use_static && !w.conc) {
-                // an existing future awaited by reference
-                w.ext.emplace();
-                w.fut = &*w.ext;
-                w.fut_member = true;
-                w.arm(w.ext->get_promise());
-                w.fut_member = false;
-                cocls::callback_await<Awt &>(CbFn<From>{Tok(w)}, *w.ext);
-            } else {
-                cocls::callback_await<Awt>(CbFn<From>{Tok(w)}, fac);
-            }
-        } else if (w.alloc == "reusable") {
-            cocls::callback_await_alloc<cocls::reusable_storage, Awt>(*w.st_reusable, CbFn<From>{Tok(w)}, fac);
-        } else if (w.alloc == "mtsafe") {
-            cocls::callback_await_alloc<cocls::reusable_storage_mtsafe, Awt>(*w.st_mt, CbFn<From>{Tok(w)}, fac);
+        if (w.argk == "lvalue") {
+            auto &slot = named[w.round % 4];
+            slot.reset();
+            slot.emplace(w);
+            call(*slot);                                    // Args = Factory &
+        } else if (w.argk == "moved") {
+            Factory<From> f(w);
+            call(std::move(f));                             // Args = Factory; f is moved-from, then destroyed
+        } else if (variant == 2 && !w.use_static) {
+            call(InitFn<From>(w));                          // temporary, future(init function)
+        } else if (variant == 3 && !w.use_static && !w.conc && w.alloc == "heap" && w.ctx != "coro") {
+            // an existing future awaited by reference
+            w.ext.emplace();
+            w.fut = &*w.ext;
+            w.fut_member = true;
+            w.arm(w.ext->get_promise());
+            w.fut_member = false;
+            cocls::callback_await<Awt &>(CbFn<From>{Tok(w)}, *w.ext);
         } else {
-            cocls::callback_await_alloc<CountingStorage, Awt>(*w.st_count, CbFn<From>{Tok(w)}, fac);
+            call(Factory<From>(w));                         // temporary
         }
     }
 };
@@ -388,7 +450,7 @@ struct MkPromAdapter : AdapterBase {
 struct DiscardAdapter : AdapterBase {
     World<int> &w;
     explicit DiscardAdapter(World<int> &w_) : w(w_) {}
-    void reg() override { cocls::discard(Factory<int>{&w}); }
+    void reg() override { cocls::discard(Factory<int>(w)); }
 };
 
 // ---- call_fn_future_awaiter ----------------------------------------------------------------------------
@@ -408,7 +470,7 @@ struct CallFnAdapter : AdapterBase {
     CfObj obj;
     CfAw aw;
     explicit CallFnAdapter(World<int> &w_) : w(w_), aw(obj) { w.fut = &aw._fut; w.fut_member = true; }
-    void reg() override { aw << Factory<int>{&w}; }
+    void reg() override { aw << Factory<int>(w); }
 };
 
 // ---- future_conv ------------------------------------------------------------------------------------------
@@ -483,10 +545,10 @@ struct ConvAdapter : AdapterBase {
         // inside the registration (the future's base is initialised before the init function runs)
         outer = reinterpret_cast<cocls::future<To> *>(obuf);
         if (w.reg == "ret") {
-            new (obuf) cocls::future<To>(*conv << Factory<From>{&w});
+            new (obuf) cocls::future<To>(*conv << Factory<From>(w));
         } else {
             new (obuf) cocls::future<To>();
-            (*conv)(outer->get_promise()) << Factory<From>{&w};
+            (*conv)(outer->get_promise()) << Factory<From>(w);
         }
     }
     bool outer_pending() override { return outer && std::string(slot_of(*outer)) != "ready"; }
@@ -612,6 +674,9 @@ static void setup(World<From> &w, const Scenario &sc) {
     w.reg = sc.hdr.at("reg").as_str("na");
     w.tovoid = sc.hdr.at("tovoid").as_bool();
     w.k = sc.hdr.at("k").as_int();
+    w.ctx = sc.hdr.at("ctx").as_str("plain");
+    w.argk = sc.hdr.at("argk").as_str("na");
+    w.fine = sc.hdr.at("fine").as_bool(false);
     if (w.alloc == "reusable") w.st_reusable.emplace();
     if (w.alloc == "mtsafe") w.st_mt.emplace();
     if (w.alloc == "counting") w.st_count.emplace();
@@ -620,39 +685,78 @@ static void setup(World<From> &w, const Scenario &sc) {
 }
 
 // ---- sequential mode ------------------------------------------------------------------------------------
+enum class StepRes { ok, bad, yield };
+
+// one public call; returns yield when the step is "the calling coroutine suspends" (performed by the caller)
+template <typename From>
+static StepRes seq_step(World<From> &w, const Scenario &sc, Reporter &rep, std::size_t k) {
+    const Step &st = sc.steps[k];
+    if (st.name == "Register") {
+        w.round++;
+        w.magic = 1000 + w.round;
+        w.pre = st.sarg(1);
+        bool before = st.sarg(0) == "before";
+        if (before != (w.pre != "none")) { rep.error(k, "bad Register arguments"); return StepRes::bad; }
+        // equivalent ways of writing the scenario, chosen by the driver's variant selector
+        w.use_static = before && ((w.k + w.round) % 2 == 1) && w.ad != "mkprom";
+        w.drop_by_dtor = ((w.k / 2 + w.round) % 2 == 1);
+        if (!w.fut_member) w.fut = nullptr;   // the previous round's future is gone with its helper
+        LibScope s(w);
+        w.adapter->reg();
+        // w.pre stays: a helper whose start is deferred builds the awaitable (and resolves it) later
+    } else if (st.name == "Resolve") {
+        if (!w.p) { rep.diverge(k, "no promise was handed out"); return StepRes::bad; }
+        w.pre = "none";
+        LibScope s(w);
+        w.resolve(st.sarg(0), 1);
+    } else if (st.name == "UserResolve") {
+        LibScope s(w);
+        w.adapter->user_resolve();
+    } else if (st.name == "Yield") {
+        return StepRes::yield;
+    } else {
+        rep.error(k, "unknown action");
+        return StepRes::bad;
+    }
+    return StepRes::ok;
+}
+
+// "ctx":"coro": the scenario's calls are made by a running coroutine; Yield = it suspends and lets the
+// thread's ready queue run (the queued helper coroutine starts / resumes), then continues
+template <typename From>
+static cocls::async<void> seq_driver(World<From> &w, const Scenario &sc, Reporter &rep, bool &bad) {
+    for (std::size_t k = 0; k < sc.steps.size(); k++) {
+        StepRes r = seq_step(w, sc, rep, k);
+        if (r == StepRes::bad) { bad = true; break; }
+        if (r == StepRes::yield) {
+            LibScope s(w);
+            co_await cocls::pause();
+        }
+        if (!rep.check(k, w.project())) { bad = true; break; }
+    }
+}
+
 template <typename From>
 static void run_seq(const Scenario &sc, Reporter &rep) {
     World<From> w;
     setup(w, sc);
     if (!w.adapter) { rep.error(0, "unknown adapter " + w.ad); return; }
     bool bad = false;
-    std::size_t k = 0;
-    for (; k < sc.steps.size(); k++) {
-        const Step &st = sc.steps[k];
-        if (st.name == "Register") {
-            w.round++;
-            w.pre = st.sarg(1);
-            bool before = st.sarg(0) == "before";
-            if (before != (w.pre != "none")) { rep.error(k, "bad Register arguments"); bad = true; break; }
-            // equivalent ways of writing the scenario, chosen by the driver's variant selector
-            w.use_static = before && ((w.k + w.round) % 2 == 1) && w.ad != "mkprom";
-            w.drop_by_dtor = ((w.k / 2 + w.round) % 2 == 1);
-            LibScope s(w);
-            w.adapter->reg();
-            w.pre = "none";
-        } else if (st.name == "Resolve") {
-            if (!w.p) { rep.diverge(k, "no promise was handed out"); bad = true; break; }
-            LibScope s(w);
-            w.resolve(st.sarg(0), 1);
-        } else if (st.name == "UserResolve") {
-            LibScope s(w);
-            w.adapter->user_resolve();
-        } else {
-            rep.error(k, "unknown action");
-            bad = true;
-            break;
+    if (w.ctx == "coro") {
+        // a fresh thread: its ready queue (std::deque) is new, so the few pushes of one scenario never reach
+        // the point where the deque allocates another node (that would be counted as a helper allocation)
+        std::thread th([&] {
+            warm_thread();
+            seq_driver<From>(w, sc, rep, bad).detach();
+        });
+        th.join();
+    } else {
+        for (std::size_t k = 0; k < sc.steps.size(); k++) {
+            StepRes r = seq_step(w, sc, rep, k);
+            if (r == StepRes::yield) { rep.error(k, "Yield outside a coroutine"); r = StepRes::bad; }
+            if (r == StepRes::bad) { bad = true; break; }
+            if (!rep.check(k, w.project())) { bad = true; break; }
         }
-        if (!rep.check(k, w.project())) { bad = true; break; }
     }
     teardown(w, rep, sc.steps.empty() ? 0 : sc.steps.size() - 1, !bad);
     g_w = nullptr;
@@ -676,22 +780,24 @@ struct Conc {
         const auto &e = sched.pending(t);
         std::string f = e.func;
         auto has = [&](const char *s) { return f.find(s) != std::string::npos; };
+        // fine grain: parked right AFTER the operation = at the plain code that follows it
+        std::string pre = sched.pending_after(t) ? "post_" : "";
         switch (e.op) {
             case op_t::mark: return "idle";
             case op_t::load: case op_t::conv:
-                if (has("::ready(")) return "check";
+                if (has("::ready(")) return pre + "check";
                 break;
             case op_t::cas:
-                if (has("subscribe_check_ready")) return "cas";
+                if (has("subscribe_check_ready")) return pre + "cas";
                 break;
-            case op_t::fence: return "fence";
+            case op_t::fence: return pre + "fence";
             case op_t::xchg:
-                if (has("::claim(")) return "claim";
-                if (has("resume_chain_set_ready")) return "swap";
+                if (has("::claim(")) return pre + "claim";
+                if (has("resume_chain_set_ready")) return pre + "swap";
                 break;
             default: break;
         }
-        return std::string("?") + cocls_verif::op_name(e.op) + "@" + f;
+        return std::string("?") + pre + cocls_verif::op_name(e.op) + "@" + f;
     }
 
     J project() {
@@ -743,6 +849,7 @@ struct Conc {
         for (auto &kv : sc.hdr.at("rk").m) rk[kv.first] = kv.second.s;
         sched.log_enabled = false;
         sched.no_yield = &no_yield_fn;
+        sched.yield_after = w.fine;
         sched.install();
         spawn_a();
         bool bad = false;
@@ -752,20 +859,28 @@ struct Conc {
                 LibScope s(w);
                 w.adapter->user_resolve();
             } else {
-                std::string th = (st.name == "Claim" || st.name == "Swap") ? st.sarg(0) : "a";
+                // fine grain: FX = the operation X, PostX = the plain code after it
+                std::string nm = st.name;
+                bool post = nm.rfind("Post", 0) == 0;
+                if (post) nm = nm.substr(4);
+                else if (w.fine && nm.size() > 1 && nm[0] == 'F') nm = nm.substr(1);
+                std::string th = (nm == "Claim" || nm == "Swap") ? st.sarg(0) : "a";
                 auto it = tid.find(th);
                 if (it == tid.end()) { rep.diverge(k, "thread " + th + " does not exist yet got=" + project().dump()); bad = true; break; }
                 int t = it->second;
-                std::string want = st.name == "Start" ? "idle" : st.name == "Check" ? "check" : st.name == "Cas" ? "cas"
-                                 : st.name == "Fence" ? "fence" : st.name == "Claim" ? "claim" : st.name == "Swap" ? "swap" : "?";
+                std::string want = nm == "Start" ? "idle" : nm == "Check" ? "check" : nm == "Cas" ? "cas"
+                                 : nm == "Fence" ? "fence" : nm == "Claim" ? "claim" : nm == "Swap" ? "swap" : "?";
+                if (post) want = "post_" + want;
                 if (!sched.enabled(t) || pend_of(th) != want) {
                     rep.diverge(k, "thread " + th + " is not at '" + want + "' in the implementation got=" + project().dump());
                     bad = true;
                     break;
                 }
-                if (st.name == "Start") { w.round++; }
+                if (nm == "Start") { w.round++; w.magic = 1000 + w.round; }
                 sched.step(t);
-                if (st.name == "Start") spawn_resolvers();   // each runs up to its claim exchange
+                // fine grain: the code after the start mark belongs to Start
+                if (nm == "Start" && w.fine && sched.parked(t) && sched.pending_after(t) && sched.pending(t).op == op_t::mark) sched.step(t);
+                if (nm == "Start") spawn_resolvers();   // each runs up to its claim exchange
             }
             if (!rep.check(k, project())) bad = true;
         }
